@@ -123,6 +123,24 @@ def run(c):
                      "peer's own address with a standard/empty path (i.e. a cell whose expected decision is not Dispatch, or whose "
                      "nibbles/lengths are unusual); evaluations = concrete datagrams given to the real ingress step")
 
+    if c.replay:
+        rp = json.load(open(c.replay))["replay"]
+        if "case" not in rp:
+            c.fail_tool("this replay file does not carry a cell (gateway-loop findings are re-run by the normal check)")
+        cell = {"case": rp["case"], "may": rp.get("may_dispatch", False), "decide": rp.get("decide")}
+        inp, outp = os.path.join(c.work, "one.ndjson"), os.path.join(c.work, "one_out.ndjson")
+        write_ndjson(inp, [cell])
+        rc, so = c.sh([binp, "replay", inp, outp], timeout=600)
+        if rc != 0:
+            c.fail_tool("replay harness failed rc=%s" % rc)
+        st = {"calls": 0, "dispatched": 0, "replies": 0, "noreply": 0, "drift": 0, "max_reply": 0}
+        for ob in read_ndjson(outp)[0]["obs"]:
+            c.log("stored cell %s: check=%s dispatched=%s replies=%s" % (cell_name(rp["case"]), ob.get("check"), ob.get("dispatched"), ob.get("replies")))
+            judge(c, cell["case"], cell["may"], cell["decide"], ob, st, "stored replay")
+        c.cov["replayed"] = 1
+        c.cov["evaluations"] = st["calls"]
+        return
+
     # ---- 1. decision table + oracle self-checks ---------------------------------------------------
     r = c.tlc(SD, "MC_SnapIngress", cfg=cfg(c, "mc_gen.cfg", MC_TMPL.format(variant="code", gen="TRUE", full="TRUE" if thorough else "FALSE")),
               timeout=2400, coverage=False)
@@ -194,7 +212,7 @@ def run(c):
                 x["replies"] = [rp for rp in x["replies"] if rp.get("len", 1) > 0]
         steps = {x["step"]: x for x in g["log"]}
         c.cov["gateway_loop"] = [x for x in g["log"] if x["step"].startswith("authorised")]
-        ontime = g["authorised_phase_done_at_s"] <= g["life"] - 5
+        ontime = g["authorised_phase_done_at_s"] <= g["life"] - 6
         for name, code in (("authorised:spoofed-source", 33), ("authorised:onehop-path", 20), ("authorised:garbage", 16)):
             x = steps.get(name)
             if not x:
